@@ -128,7 +128,6 @@ Proof.
   - split; [lia|discriminate].
 Qed.
 
-Definition nonempty (b : list N) : Prop := b <> [].
 
 Lemma len_zero_iff (b : list N) : (len b =? 0) = true <-> b = [].
 Proof. destruct b as [|x b]. split; reflexivity. rewrite len_cons. split; intros H. lia. discriminate. Qed.
@@ -157,7 +156,6 @@ Proof.
 Qed.
 
 (* ---------------- well-formed maps: one entry per message id ---------------- *)
-Definition wf (s : pstate) : Prop := NoDup (map fst s).
 
 Lemma keys_remove id s k : In k (map fst (remove id s)) <-> In k (map fst s) /\ k <> id.
 Proof.
@@ -510,10 +508,6 @@ Proof.
   destruct (run s1 l). exact IH.
 Qed.
 
-(* events that cannot start a transfer of X: no sub-package of X numbered 1 *)
-Definition no_start (X : N) (e : event) : Prop :=
-  match e with EvMsg m => m_id m = X -> m_sum m <> 0 -> m_no m <> 1 | EvEnd => True end.
-
 (* while no transfer of X exists and none is started, nothing is delivered or re-requested for X *)
 Lemma run_absent X l : forall s k0, wf s -> find X s = None ->
   Forall (fun te => no_start X (snd te)) l ->
@@ -634,13 +628,13 @@ Proof.
       destruct (upd + 5000 <? t); auto.
 Qed.
 
-Definition ok_after (t1 : N) (te : N * event) : Prop :=
+Definition ok_after_n (t1 : N) (te : N * event) : Prop :=
   fst te <= t1 + 60000 /\ ev_ok X NN bodies (snd te).
 
 (* packet 1 followed by events that do not complete the transfer: nothing delivered for X, and
    the transfer's record is exactly what the history says *)
 Theorem state_after s0 t1 p1 rest :
-  wf s0 -> good_pkt X NN bodies p1 -> m_no p1 = 1 -> Forall (ok_after t1) rest ->
+  wf s0 -> good_pkt X NN bodies p1 -> m_no p1 = 1 -> Forall (ok_after_n t1) rest ->
   ~ covers NN (numbers X NN ((t1, EvMsg p1) :: rest)) ->
   completions X (snd (run s0 ((t1, EvMsg p1) :: rest))) = [] /\
   pending X n bodies t1 p1 (numbers X NN ((t1, EvMsg p1) :: rest)) (last_stamp X NN t1 rest)
@@ -675,13 +669,13 @@ Qed.
 (* C05: the message is delivered exactly once, with the concatenation of the bodies, by the
    event that brings the last missing number *)
 Theorem exact s0 t1 p1 rest l1 t m l2 :
-  wf s0 -> good_pkt X NN bodies p1 -> m_no p1 = 1 -> Forall (ok_after t1) rest ->
+  wf s0 -> good_pkt X NN bodies p1 -> m_no p1 = 1 -> Forall (ok_after_n t1) rest ->
   (t1, EvMsg p1) :: rest = l1 ++ (t, EvMsg m) :: l2 ->
   ~ covers NN (numbers X NN l1) -> covers NN (numbers X NN (l1 ++ [(t, EvMsg m)])) ->
   completions X (snd (run s0 ((t1, EvMsg p1) :: rest))) = [(length l1, concat bodies)].
 Proof.
   intros Hwf Hg H1 Hall Hsplit Hnc Hc.
-  assert (Hok2 : forall l, Forall (ok_after t1) l -> Forall (fun te => ev_ok X NN bodies (snd te)) l).
+  assert (Hok2 : forall l, Forall (ok_after_n t1) l -> Forall (fun te => ev_ok X NN bodies (snd te)) l).
   { intros l H. eapply Forall_impl; [|exact H]. now intros te []. }
   destruct l1 as [|e1 l1].
   - (* packet 1 alone completes: n = 1 *)
@@ -725,7 +719,7 @@ Qed.
 
 (* C05: an incomplete set is never delivered *)
 Theorem never_early s0 t1 p1 rest :
-  wf s0 -> good_pkt X NN bodies p1 -> m_no p1 = 1 -> Forall (ok_after t1) rest ->
+  wf s0 -> good_pkt X NN bodies p1 -> m_no p1 = 1 -> Forall (ok_after_n t1) rest ->
   ~ covers NN (numbers X NN ((t1, EvMsg p1) :: rest)) ->
   completions X (snd (run s0 ((t1, EvMsg p1) :: rest))) = [].
 Proof. intros. now apply state_after. Qed.
@@ -772,12 +766,6 @@ Proof.
 Qed.
 
 (* ... in strictly ascending order *)
-Fixpoint ascending (l : list N) : Prop :=
-  match l with
-  | [] => True
-  | a :: t => (forall b, In b t -> a < b) /\ ascending t
-  end.
-
 Lemma ascending_filter p l : ascending l -> ascending (filter p l).
 Proof.
   induction l as [|a l IH]; cbn [filter ascending]. tauto.
